@@ -70,7 +70,7 @@ def write_mc(wd, name, sc, trace=None, invariants=()):
     with open(os.path.join(wd, mod + ".tla"), "w") as f:
         f.write("\n".join(lines) + "\n")
     nlists = 3 * sum(1 for ops in sc["threads"].values() for op in ops if op["k"] == "recv") + 2
-    c = ["CONSTANTS", "  Threads <- c_Threads", "  Prog <- c_Prog", "  Topics <- c_Topics", "  MaxLists = %d" % nlists]
+    c = ["CONSTANTS", "  Threads <- c_Threads", "  Prog <- c_Prog", "  Topics <- c_Topics", "  MaxLists = %d" % nlists, "  GCRuns = FALSE"]
     if trace:
         c += ["  TraceFile <- c_TraceFile", "INIT TInit", "NEXT TNext"]
     else:
